@@ -59,8 +59,11 @@ def t_cases(tier):
         for n in (4, 5):
             for pos in range(1, n):
                 for hz in HAZ_H + HAZ_N + HAZ_X + HAZ_P + HAZ_B:
-                    for w in widths:
+                    before = len(ii) + len(" ".join(PLAIN[:pos]))          # the hazard word would need column before + 1 ..
+                    for w in sorted(set(widths) | {before, before + 1, before + len(hz)}):
                         for mode, prevsent in (("fill", False), ("sem", False), ("sem", True)):
+                            if w not in widths and mode == "sem" and tier == "quick":
+                                continue
                             toks = PLAIN[:n]
                             toks[pos] = hz
                             if prevsent:
